@@ -200,7 +200,7 @@ class P:
                 continue
             if self.at("return"):
                 self.next()
-                e = self.expr()
+                e = None if self.at(";") else self.expr()
                 self.accept(";")
                 stmts.append(("return", e))
                 continue
@@ -426,6 +426,11 @@ class Fn:
         self.n = 0
         self.impure = False
         self.tables = []
+        self.mutouts = []
+
+    def unit_return(self, env):
+        outs = [env[m][0] for m in self.mutouts]
+        return "Val " + ("tt" if not outs else outs[0] if len(outs) == 1 else "(" + ", ".join(outs) + ")")
 
     def fresh(self):
         self.n += 1
@@ -507,6 +512,8 @@ class Tr:
             if t == "bool":
                 return b, "(b2z %s)" % a, to
             if to in ("u64", "usize", "W64"):
+                if t == "lit":
+                    return b, a, to
                 if t == "u128":
                     return b, "(wrap %s)" % paren(a), to
                 return b, a, to
@@ -616,6 +623,12 @@ class Tr:
         else:
             b1, a1, t1 = self.ex(f, x, env, wx)
             b2, a2, t2 = self.ex(f, y, env, t1)
+        if t1 == "lit":
+            t1 = t2
+        if t2 == "lit":
+            t2 = t1
+        if t1 == "lit":
+            t1 = t2 = want or "usize"
         if t1 != t2:
             raise Unsupported("operand types %s %s %s" % (t1, op, t2))
         bs = b1 + b2
@@ -886,6 +899,8 @@ class Tr:
             return br + b, "(%s %s %s)" % (fn, paren(ar), paren(a)), ("tuple", [tr_, "bool"])
         if m == "leading_zeros":
             return br, "(clz64 %s)" % paren(ar), "u32"
+        if m == "count_ones" and tr_ == "u64":
+            return br, "(popcnt64 %s)" % paren(ar), "u32"
         if m in ("high", "low", "split") and tr_ == "u128":
             return self.apply(f, "dw_" + m, [], env, recv=("__atom", paren(ar)))
         raise Unsupported("method ." + m)
@@ -991,6 +1006,10 @@ class Tr:
             pat = self.bind_pat(s[1], t[1], env)
             f.impure = True
             return "%s match %s with None => Val None | Some %s =>\n  %s end" % (" ".join(b), a, pat, rest(env))
+        if k == "let" and s[2] is None and s[3][0] == "num" and not s[3][2] and s[1][0] == "pvar":
+            env = dict(env)
+            env[s[1][1]] = (s[1][1], "lit")     # integer literal without annotation: typed at first use
+            return "let %s := %d in\n  %s" % (s[1][1], s[3][1], rest(env))
         if k == "let":
             b, a, t = self.ex(f, s[3], env, s[2])
             env = dict(env)
@@ -1005,7 +1024,11 @@ class Tr:
                 return "%s let %s := %s in\n  %s" % (pre, pat, a, rest(env))
             return "%s let '%s := %s in\n  %s" % (pre, pat, a, rest(env))
         if k == "return":
+            if s[1] is None:                    # `return;` in a unit function: the &mut outputs as they are
+                return f.unit_return(env)
             b, a, t = self.ex(f, s[1], env, retty)
+            if f.mutouts:
+                raise Unsupported("return of a value in a function with &mut parameters")
             return " ".join(b) + " Val %s" % a
         if k == "assign":
             tgt = s[1]
@@ -1033,7 +1056,10 @@ class Tr:
                 raise Unsupported("assignment target")
             if tgt[0] in ("var", "index"):
                 nm, ty, post = target(tgt)
-                b, a, t = self.ex(f, rhs, env, ty)
+                b, a, t = self.ex(f, rhs, env, None if ty == "lit" else ty)
+                if ty == "lit" and tgt[0] == "var":
+                    env = dict(env)
+                    env[tgt[1]] = (tgt[1], t)
                 return "%s let %s := %s in %s\n  %s" % (" ".join(b), nm, a, " ".join(post), rest(env))
             if tgt[0] == "tuple":
                 parts = [target(x) for x in tgt[1]]
@@ -1173,6 +1199,8 @@ class Tr:
             binders.append("(%s : %s)" % (pn, "bool" if pt == "bool" else
                                           "list Z" if (pt == "uint" or (isinstance(pt, tuple) and pt[0] in ("slice", "arr"))) else "Z"))
 
+        f.mutouts = mutouts
+
         def fin(env2):
             if body[2] is None:
                 b, a = [], None
@@ -1270,6 +1298,12 @@ TARGETS = [
     ("src/add.rs", UINT_IMPL, "overflowing_add", "U.overflowing_add", "g_overflowing_add", "uint"),
     ("src/add.rs", UINT_IMPL, "wrapping_add", "U.wrapping_add", "g_wrapping_add", "uint"),
     ("src/cmp.rs", "pub fn is_zero", "is_zero", "U.is_zero", "g_is_zero", "uint"),
+    ("src/bits.rs", UINT_IMPL, "bit", "U.bit", "g_bit", "uint"),
+    ("src/bits.rs", UINT_IMPL, "set_bit", "U.set_bit", "g_set_bit", "uint"),
+    ("src/bits.rs", UINT_IMPL, "not", "U.not", "g_not", "uint"),
+    ("src/bits.rs", UINT_IMPL, "count_ones", "U.count_ones", "g_count_ones", "uint"),
+    ("src/bits.rs", UINT_IMPL, "count_zeros", "U.count_zeros", "g_count_zeros", "uint"),
+    ("src/special.rs", UINT_IMPL, "is_power_of_two", "U.is_power_of_two", "g_is_power_of_two", "uint"),
     ("src/cmp.rs", "Ord for Uint<BITS, LIMBS>", "cmp", "U.cmp", "g_cmp", "uint"),
     ("src/div.rs", UINT_IMPL, "div_rem", "U.div_rem", "g_div_rem", "uint"),
     ("src/div.rs", UINT_IMPL, "wrapping_div", "U.wrapping_div", "g_wrapping_div", "uint"),
